@@ -297,6 +297,11 @@ def u_ctl():
     add("ctl-multi", ["a: %s" % Q2, "b: %s" % Q2], Q2, ["c, d = a + 1, b + 2", "return c ^ d"])
     add("ctl-multi", ["a: Tuple[bool, bool]"], "bool", ["c, d = a", "return c and not d"])
     add("ctl-multi", ["a: Tuple[%s, bool]" % Q2], Q2, ["c, d = a", "return c if d else 0"])
+    # unpacking into targets that include the unpacked tuple itself
+    add("ctl-multi", ["t: Tuple[Tuple[bool, bool], bool]"], "bool", ["t, u = t", "return t[0] and u"])
+    add("ctl-multi", ["t: Tuple[bool, Tuple[bool, bool]]"], "bool", ["u, t = t", "return (t[0] ^ u) and t[1]"])
+    add("ctl-multi", ["t: Tuple[%s, Tuple[%s, bool]]" % (Q2, Q2)], Q2, ["u, t = t", "return (t[0] + u) if t[1] else u"])
+    add("ctl-multi", ["t: Tuple[Tuple[bool, bool], Tuple[bool, bool]]"], "bool", ["t, u = t", "u, t = (t, u)", "return t[0] and not u[1]"])
     add("ctl-tuple", ["a: Tuple[bool, bool]"], "bool", "return a[0] and not a[1]")
     add("ctl-tuple", ["a: Tuple[%s, %s]" % (Q2, Q2)], Q2, "return a[0] + a[1]")
     add("ctl-tuple", ["a: Tuple[%s, %s]" % (Q2, Q4)], Q4, "return a[0] + a[1]")
@@ -345,6 +350,11 @@ def u_ctl():
     add("ctl-char", ["a: Qchar"], "Qint[8]", "return ord(a)")
     add("ctl-char", ["a: Qint[8]"], "Qchar", "return chr(a)")
     add("ctl-char", ["a: Qchar"], "Qchar", "return a")
+    add("ctl-char", ["a: Qchar"], "bool", "return ord(a) == 3")
+    add("ctl-char", ["a: Qchar"], "bool", "return ord(a) != 65")
+    add("ctl-char", ["a: Qchar", "b: Qint[4]"], "bool", "return ord(a) == b")
+    add("ctl-char", ["a: Qchar", "b: Qint[2]"], "bool", "return b != ord(a)")
+    add("ctl-char", ["a: Qint[4]"], "bool", "return chr(a) == 'A'")
     add("ctl-mixed", ["a: %s" % Q2, "b: %s" % Q4], Q4, "return (a + b) - 1")
     add("ctl-mixed", ["a: %s" % Q2, "b: %s" % Q4], "bool", "return a + 1 > b")
     add("ctl-mixed", ["a: %s" % Q4, "b: %s" % Q2], "bool", "return a - b == 3")
@@ -404,6 +414,10 @@ def u_reject():
     add(["a: Tuple[bool, bool]"], "bool", "return a[2]")
     add(["a: %s" % Q2], "bool", "return a[2]")
     add(["a: %s" % Q2], "bool", "return a[5]")
+    add(["a: Qint[4]"], "bool", "return a[-1]")
+    add(["a: Tuple[bool, bool, bool]"], "bool", "return a[-1]")
+    add(["a: Qlist[Qint[2], 3]"], Q2, "return a[-2]")
+    add(["a: Qchar"], "bool", "return a == 3")
     add(["a: Tuple[bool, bool]"], "Tuple[bool, bool, bool]", "return a")
     add(["a: Tuple[bool, bool]", "b: Tuple[bool, bool, bool]"], "bool", "return a == b")
     add(["a: bool"], "bool", ["b = a", "b, c = a", "return b"])
